@@ -1,3 +1,4 @@
+import ActixNet.Generated.Src
 import ActixNet.Model.Connect
 /-! Helper lemmas for `Props/C19.lean` (connector model). -/
 namespace ActixNet.Connect
